@@ -146,7 +146,17 @@ func marshalUnknownValue(rng cty.ValueRange, path cty.Path, enc *msgpack.Encoder
 	return nil
 }
 
-func unmarshalUnknownValue(dec *msgpack.Decoder, ty cty.Type, path cty.Path) (cty.Value, error) {
+func unmarshalUnknownValue(dec *msgpack.Decoder, ty cty.Type, path cty.Path) (ret cty.Value, err error) {
+	// The refinement builder reports contradictory refinements (nullness stated
+	// both ways, crossed bounds, bounds that exclude each other) by panicking,
+	// which is right for a programming error but not for untrusted input.
+	defer func() {
+		if r := recover(); r != nil {
+			ret = cty.DynamicVal
+			err = path.NewErrorf("invalid refinements for unknown value: %v", r)
+		}
+	}()
+
 	// The next item in the stream should be a msgpack extension value,
 	// which might be zero-length for a totally unknown value, or it might
 	// contain a mapping describing some type-specific refinements.
